@@ -128,6 +128,10 @@ def gen(rng, n_manual, n_auto):
             c["n_inc"] = k2 + int((T + 8) / dt) + 8
         if j % 6 == 5:
             ctl.add_second(rng, c)       # two iterations on the same objects (reset_system between)
+        if j % 6 == 3:
+            c["unit"] = rng.choice([1, 2, 2, 4])      # the run's time unit is seconds / minutes / days while the sectioning time is written in hours
+        if j % 6 == 1:
+            c["spec"]["ctrl"]["T_unit"] = rng.choice([1, 2, 2, 4])      # ... or the sectioning time itself is written in seconds / minutes / days
         cases.append(c)
     for j in range(n_auto):
         c = ctl.gen_scenario(rng, max_lines=5, ctrl="main")
@@ -220,6 +224,9 @@ def gen(rng, n_manual, n_auto):
             for _ in range(rng.choice([1, 2])):
                 c["faults"].setdefault(str(rng.randint(1, 12)), []).append(["C1", str(rng.choice([F(1, 2), F(1), F(2), F(5, 2)]))])
         cases.append(c)
+    for q, c in enumerate([c for c in cases if c.get("kind") == "auto"]):
+        if q % 7 == 3:
+            c["unit"] = rng.choice([1, 2, 4])
     for q, c in enumerate([c for c in cases if c.get("kind") == "auto"]):
         if q % 7 == 6 and "second" not in c:
             ctl.add_second(rng, c)       # two iterations on the same objects under ICT-based control
